@@ -71,7 +71,8 @@ def report (dflt apd : Bool) (c : ClassInfo) : Json :=
     ("admitsExtra", .bool (runtimeAdmitsExtra dflt c)),
     ("inheritedAddlOn", .bool (inheritedAddlOn dflt c)),
     ("inheritedAddlOff", .bool (inheritedAddlOff dflt c)),
-    ("mandatoryFirst", .bool (mandatoryFirst (stubInit dflt apd c).params))]
+    ("mandatoryFirst", .bool (mandatoryFirst (stubInit dflt apd c).params)),
+    ("addlDeclared", .bool (addlLookup (mro c)).isSome)]
 
 /-! ### the same classes as class objects of Sem/Define.lean (any hierarchy shape: C3 linearisation) -/
 
@@ -113,6 +114,7 @@ def reportD (dflt apd : Bool) (label : String) (w : World) (src : ClassSrc) : Js
     ("inheritedAddlOff", .bool (inheritedOffD dflt w src)),
     ("mandatoryFirst", .bool (mandatoryFirst s.params)),
     ("namesCovered", .bool (namesCovered w src)),
+    ("addlDeclared", .bool (addlAttr w src).isSome),
     ("mro", strsToJson c.mro),
     ("mroOk", .bool (mroOf w src).isSome),
     ("sigDup", .bool ((Typedpy.sigOf w src).req.any (fun n => (Typedpy.sigOf w src).opt.contains n)))]
@@ -210,6 +212,39 @@ def textClass (sigFor : Nat → Option (Stub.Sig × String)) (j : Json) : Except
                               ("model", .str (toksText (classToks cname bases)))]),
     ("attrBad", strsToJson attrBad)])
 
+def kindOfStr (s : String) : Except String PKind :=
+  match s with
+  | "po" => pure .po | "pk" => pure .pk | "va" => pure .va | "ko" => pure .ko | "vk" => pure .vk
+  | _ => throw s!"unknown parameter kind {s}"
+
+def optAnn (j : Json) : Except String (Option Ann) :=
+  match j with
+  | .null => pure none
+  | _ => do pure (some (← annOfJson j))
+
+/-- one method / function as `inspect.signature` reports it (+ the annotation / default expressions read off the
+    stub): the model's `methodToks` against the lexed real header -/
+def textMethod (j : Json) : Except String Json := do
+  let f ← (← j.getObjVal? "name").getStr?
+  let text ← (← j.getObjVal? "text").getStr?
+  let ps ← (← (← j.getObjVal? "ps").getArr?).toList.mapM fun p => do
+    let a ← p.getArr?
+    match a.toList with
+    | [n, k, ann, d] => do
+      let n' ← n.getStr?
+      let k' ← kindOfStr (← k.getStr?)
+      let a' ← optAnn ann
+      let d' ← optAnn d
+      pure ({ name := n', kind := k', ann := a', dflt := d' } : RParam)
+    | _ => throw "text: method parameter must be [name, kind, ann, default]"
+  let ret ← match optField j "ret" with
+    | none => pure none
+    | some r => optAnn r
+  let model := methodToks f ps ret
+  pure (Json.mkObj [("eq", .bool (lexPy text == some model)), ("model", .str (toksText model)),
+    ("valid", .bool (validGo .po0 false ps)),
+    ("roundtrip", .bool (parseDef model == some ⟨f, ps.map RParam.info⟩))])
+
 def textReport (sigFor : Nat → Option (Stub.Sig × String)) (j : Json) : Except String Json := do
   let cls ← match optField j "classes" with
     | none => pure []
@@ -221,7 +256,10 @@ def textReport (sigFor : Nat → Option (Stub.Sig × String)) (j : Json) : Excep
     ("classes", Json.arr cls.toArray),
     ("defs", Json.arr ((← strs "defs").map parseDefText).toArray),
     ("muts", Json.arr ((← strs "muts").map parseDefText).toArray),
-    ("cls", Json.arr ((← strs "cls").map parseClassText).toArray)])
+    ("cls", Json.arr ((← strs "cls").map parseClassText).toArray),
+    ("meths", Json.arr (← match optField j "meths" with
+      | none => pure []
+      | some x => do (← x.getArr?).toList.mapM textMethod).toArray)])
 
 def run (j : Json) : Except String Json := do
   let dflt ← optBool j "dflt" true
